@@ -277,5 +277,72 @@ func (c *Ctx) WireAgree(key, writer, reader string, min int, what string) {
 			}
 		}
 	}
-	c.ok(key, rule, desc+" = ["+schemaString(ws)+"]", len(ws))
+	// an entry loop transfers every item in every iteration (the count prefix
+	// was computed from the whole collection)
+	for _, f := range []*ssa.Function{wf, rf} {
+		if bad := c.wireLoopsComplete(f); bad != "" {
+			c.fail(key, rule, desc, why, bad, len(ws))
+			return
+		}
+	}
+	c.ok(key, rule, desc+" = ["+schemaString(ws)+"]; entry loops transfer every item on every iteration", len(ws))
+}
+
+// wireLoopsComplete: for every loop of a codec function that contains wire
+// transfers, no iteration returns to the loop header without having executed
+// each of them (a skipped entry disagrees with the count prefix that was
+// written, or read, for the whole collection).
+func (c *Ctx) wireLoopsComplete(fn *ssa.Function) string {
+	p := c.P
+	isWire := func(in ssa.Instruction) bool {
+		call, ok := in.(*ssa.Call)
+		if !ok {
+			return false
+		}
+		switch p.CalleeName(&call.Call) {
+		case "encoding/binary.Write", "io.Writer.Write", "encoding/binary.Read", "internal.ReadN", "io.ReadFull":
+			return true
+		}
+		return false
+	}
+	for _, t := range fn.Blocks {
+		for _, h := range t.Succs {
+			if !h.Dominates(t) {
+				continue
+			}
+			// natural loop of the back edge t -> h
+			loop := map[*ssa.BasicBlock]bool{h: true}
+			work := []*ssa.BasicBlock{t}
+			for len(work) > 0 {
+				b := work[len(work)-1]
+				work = work[:len(work)-1]
+				if loop[b] {
+					continue
+				}
+				loop[b] = true
+				work = append(work, b.Preds...)
+			}
+			for b := range loop {
+				if b == h {
+					continue
+				}
+				for _, in := range b.Instrs {
+					if !isWire(in) {
+						continue
+					}
+					w := in
+					for _, sb := range h.Succs {
+						if !loop[sb] {
+							continue
+						}
+						s := &Search{P: p, Fn: fn, Avoid: func(i ssa.Instruction) bool { return i == w }, Tgt: func(i ssa.Instruction) bool { return i.Block() == h }}
+						if f := s.runFromBlock(sb); f != nil {
+							return fmt.Sprintf("in %s an iteration of the entry loop can return to the loop header without the transfer at %s (an entry is skipped although the count covers the whole collection); path %s", p.FuncName(fn), c.where(w), p.TraceString(f.Trace))
+						}
+					}
+				}
+			}
+		}
+	}
+	return ""
 }
